@@ -169,6 +169,7 @@ def checkRegionsOverlap (checkLinker : Bool) (l : List Region) : Option (Nat × 
     so they never collide; name handling is C13's subject). -/
 inductive GlueOp where
   | master                                        -- `add_master("m<k>", Interface(...))`
+  | masterR (origin size : Nat)                   -- `add_master("m<k>", Interface(...), region=SoCRegion(origin, size))`
   | slave  (origin : Option Nat) (size : Nat) (cached linker : Bool)   -- `add_slave("s<k>", iface, SoCRegion(...))`
   | region (origin : Option Nat) (size : Nat) (cached linker : Bool)   -- `add_region("r<k>", SoCRegion(...))`
   | io     (origin size : Nat)                    -- `add_region("io<k>", SoCIORegion(origin, size, cached=False))`
@@ -177,6 +178,7 @@ deriving Repr, DecidableEq
 /-- The C13 operation a script line stands for (`k` = its position = its name). -/
 def GlueOp.toBusOp (k : Nat) : GlueOp → BusOp Nat
   | .master => .addMaster (some k)
+  | .masterR _ _ => .addMaster (some k)            -- the region only configures the remapper in front of the port
   | .slave o sz c l => .addSlave (some k) (some { origin := o, size := sz, cached := c, linker := l })
   | .region o sz c l => .addRegion k { origin := o, size := sz, cached := c, linker := l }
   | .io o sz => .addRegion k { io := true, origin := some o, size := sz, cached := false }
@@ -196,15 +198,57 @@ def socOfBus (s : BusH Nat) (kind : BusKind) (reg : Bool) (timeout : Option Nat)
   { n := s.masters.length, regions := s.slaveRegions.map fun p => (p.2.origin, p.2.size),
     kind, reg, timeout, dw := s.dw, aw := s.aw }
 
+/-! ### `add_master(name, master, region=SoCRegion(origin, size))`: a `wishbone.Remapper` in front of the port
+
+      adapted = Interface(same widths);  Remapper(master, adapted, origin, size):
+          log2_size = int(log2(size)) - log2(data_width/8);  origin >>= log2(data_width/8)
+          adapted.adr = origin | (master.adr & (2**log2_size - 1))          # every other signal straight through
+  (word addressing; both address signals are `address_width - log2(data_width/8)` bits wide). -/
+
+/-- Word address the bus sees for word address `a` driven by a master restricted to `[origin, origin+size)`. -/
+def remapAdr (origin size sh aw a : Nat) : Nat :=
+  ((origin >>> sh) ||| (a % 2 ^ (aw - sh) % 2 ^ (Nat.log2 size - sh))) % 2 ^ (aw - sh)
+
+/-- Per master (in `add_master` order): the region of its remapper, if any. -/
+def glueRemaps : List GlueOp → List (Option (Nat × Nat))
+  | [] => []
+  | .master :: ops => none :: glueRemaps ops
+  | .masterR o sz :: ops => some (o, sz) :: glueRemaps ops
+  | _ :: ops => glueRemaps ops
+
+/-- A finished bus together with the remappers in front of its master ports. -/
+structure SocRCfg where
+  soc    : SocCfg
+  remaps : List (Option (Nat × Nat)) := []
+
+namespace SocRCfg
+def sh (c : SocRCfg) : Nat := Nat.log2 (c.soc.dw / 8)
+
+/-- Address master `i`'s port presents to the interconnect. -/
+def portAdr (c : SocRCfg) (i a : Nat) : Nat :=
+  match c.remaps[i]? with
+  | some (some (o, sz)) => remapAdr o sz c.sh c.soc.aw a
+  | _ => a
+
+/-- What the interconnect sees of the masters. -/
+def mapIn (c : SocRCfg) (x : BusIn) : BusIn :=
+  { x with ms := fun i => { x.ms i with adr := c.portAdr i (x.ms i).adr } }
+end SocRCfg
+
+/-- The bus as the masters' ports see it: remappers, then the fabric `do_finalize` selected. -/
+def SocRBus.machine (c : SocRCfg) : Machine BusIn SocState BusOut :=
+  { init := SocBus.init c.soc, out := fun s x => SocBus.out c.soc s (c.mapIn x),
+    next := fun s x => SocBus.next c.soc s (c.mapIn x) }
+
 /-- Outcome of a whole build: rejected at call `k`, rejected by `do_finalize`, or the bus. -/
 inductive GlueResult where
   | rejected (k : Nat)
   | finRejected
-  | built (c : SocCfg)
+  | built (c : SocRCfg)
 
 /-- The slave regions handed to the interconnect (`none` when the build was rejected). -/
 def GlueResult.regions? : GlueResult → Option (List (Nat × Nat))
-  | .built c => some c.regions
+  | .built c => some c.soc.regions
   | _ => none
 
 /-- Position of the call that raised `SoCError` (`none`: every call was accepted). -/
@@ -218,6 +262,6 @@ def glueBuild (dw aw : Nat) (kind : BusKind) (reg : Bool) (timeout : Option Nat)
   | .inr s =>
     match s.finalize with
     | .error _ => .finRejected
-    | .ok _ => .built (socOfBus s kind reg timeout)
+    | .ok _ => .built { soc := socOfBus s kind reg timeout, remaps := glueRemaps ops }
 
 end Litex.Wishbone
